@@ -51,6 +51,11 @@ impl Out {
         *self.stats.entry(key.to_string()).or_insert(0) += n;
     }
     pub fn finish(mut self, dir: &str, extra: serde_json::Value) {
+        // schemas the generator produced, the parser accepted and ResolvedSchema rejected: every
+        // property over "all accepted schemas" fails on them (they are not silently regenerated)
+        for (text, err) in crate::genr::take_unresolvable() {
+            self.oracle_fail("accepted-unresolvable", &format!("the parser accepts a generated schema that ResolvedSchema::new rejects ({err}): no datum can be written or read with it"), &format!("schema={text}"));
+        }
         self.req.flush().unwrap();
         self.imp.flush().unwrap();
         self.oracle.flush().unwrap();
